@@ -1953,7 +1953,11 @@ def case_err_basic(c, rng, idx, K):
     if len(cand) < need:
         c.violate(None, f"{c.sample['call']}: the resulting model has {len(cand)} epsilon(s), the {which} model needs {need}")
         return c
-    for order in itertools.permutations(cand, need):
+    orders = list(itertools.permutations(cand, need))
+    if which == "combined" and set(cand) == {"epsilon_p", "epsilon_a"}:
+        # the docstring examples name the epsilons: epsilon_p multiplies the prediction, epsilon_a is added
+        orders = [("epsilon_p", "epsilon_a")]
+    for order in orders:
         ok = True
         for vals, rec, amounts, t, A in pts:
             v0 = dict(vals)
